@@ -613,6 +613,8 @@ enum Got {
     Stage(String),
     Import(Verdict),
     Machinery(String),
+    /// the code under test panicked instead of returning a typed error
+    Panicked(String),
 }
 
 impl Ctx {
@@ -665,7 +667,10 @@ impl Ctx {
         }
         println!("B\t{seq}\t{}\t{kind}\t{fault}", profile.name());
         MAX_ALLOC_REQUEST.store(0, Ordering::Relaxed);
-        let got = f();
+        let got = match mc::catch(f) {
+            Ok(g) => g,
+            Err(msg) => Got::Panicked(msg),
+        };
         let req = MAX_ALLOC_REQUEST.load(Ordering::Relaxed);
         self.eval(1);
         if req > ALLOC_ALARM {
@@ -678,6 +683,20 @@ impl Ctx {
         }
         match got {
             Got::Machinery(m) => self.machinery(&m),
+            Got::Panicked(msg) => {
+                let short: String = msg
+                    .chars()
+                    .map(|c| if c.is_ascii_alphanumeric() { c } else { '-' })
+                    .take(40)
+                    .collect();
+                self.outcome(profile, kind, &format!("PANIC:{short}"));
+                let sig = if msg.contains("capacity overflow") {
+                    format!("wsc:{}:{kind}-unbounded-allocation:panic-capacity-overflow", profile.name())
+                } else {
+                    format!("wsc:{}:{kind}-panics:{short}", profile.name())
+                };
+                self.violation(sig, fault, json!(format!("panic instead of a typed error: {msg}")));
+            }
             Got::Stage(s) => self.outcome(profile, &format!("{kind}@before-import"), &s),
             Got::Import(Verdict::Err(k)) => {
                 if oracle == Oracle::MustRefuse {
@@ -930,6 +949,8 @@ pub struct Unit {
     pub part: Part,
     pub bits: Vec<u8>,
     pub blob_flips: bool,
+    /// damage the DiskTier blob file at every byte (otherwise only first and last byte)
+    pub disk_flips: bool,
 }
 
 impl Unit {
@@ -940,6 +961,7 @@ impl Unit {
             "part": match self.part { Part::Main => -1i64, Part::Envelope(n) => n as i64 },
             "bits": self.bits,
             "blob_flips": self.blob_flips,
+            "disk_flips": self.disk_flips,
             "skip": skip,
         })
         .to_string()
@@ -1656,6 +1678,9 @@ fn cas_faults(
         // (iii) the DiskTier file itself damaged, every byte
         let path = blob_path(h);
         for pos in 0..bytes.len() {
+            if !u.disk_flips && pos != 0 && pos + 1 != bytes.len() {
+                continue;
+            }
             let bit = u.bits[pos % u.bits.len()];
             let fault = json!({"kind": "corrupt-cas-blob", "profile": p.name(), "blob": what, "pos": pos, "bit": bit, "via": "disk-tier-file"});
             if std::fs::write(&path, flip(bytes, pos, bit)).is_err() {
@@ -1731,6 +1756,7 @@ pub fn child_main(spec: &str) -> ! {
             .map(|a| a.iter().filter_map(|b| b.as_u64()).map(|b| b as u8).collect())
             .unwrap_or_else(|| vec![0]),
         blob_flips: v.get("blob_flips").and_then(|x| x.as_bool()).unwrap_or(false),
+        disk_flips: v.get("disk_flips").and_then(|x| x.as_bool()).unwrap_or(false),
     };
     let skip: BTreeSet<u64> = v
         .get("skip")
@@ -1948,7 +1974,7 @@ pub fn run(r: &Report, wit: &Witnesses) {
         "wsc_family",
         json!({"alphabet": alphabet.iter().map(|t| t.render()).collect::<Vec<_>>(), "max_len": 3, "histories": fam.len(),
                "bits_flipped_per_byte": bits.len(),
-               "blob_byte_flips_on": if r.quick() { "histories of length ≤2 and the rich history 'Sa |rotate| Ta Rx'" } else { "all histories" },
+               "blob_byte_flips_on": if r.quick() { "unrotated histories of length ≤2 and the rich history 'Sa |rotate| Ta Rx'" } else { "all histories" },
                "envelope_byte_flips_on": if r.quick() { "the rich history" } else { "histories of length ≤2 and the rich history (1 bit per byte; all 8 bits on the rich history)" }}),
     );
 
@@ -1979,7 +2005,10 @@ pub fn run(r: &Report, wit: &Witnesses) {
                 profile: p,
                 part: Part::Main,
                 bits: bits.clone(),
-                blob_flips: if r.quick() { len <= 2 || is_rich } else { true },
+                // quick: rotation variants of the short histories carry the same bytes split over
+                // two files; the rich history covers the two-segment shape
+                blob_flips: if r.quick() { (len <= 2 && b.history.rotate_after.is_empty()) || is_rich } else { true },
+                disk_flips: if r.quick() { is_rich } else { true },
             });
             let env_flips = if r.quick() { is_rich } else { len <= 2 || is_rich };
             if env_flips {
@@ -1991,6 +2020,7 @@ pub fn run(r: &Report, wit: &Witnesses) {
                         part: Part::Envelope(ei),
                         bits: if is_rich { bits.clone() } else { vec![0] },
                         blob_flips: false,
+                        disk_flips: false,
                     });
                 }
             }
@@ -2094,9 +2124,9 @@ pub fn replay(r: &Report, case: &Value) {
         if only_profile.is_some_and(|o| o != p) {
             continue;
         }
-        units.push(Unit { hist_index: 0, history: h.clone(), profile: p, part: Part::Main, bits: (0..8).collect(), blob_flips: true });
+        units.push(Unit { hist_index: 0, history: h.clone(), profile: p, part: Part::Main, bits: (0..8).collect(), blob_flips: true, disk_flips: true });
         for ei in 0..env_count(p) {
-            units.push(Unit { hist_index: 0, history: h.clone(), profile: p, part: Part::Envelope(ei), bits: (0..8).collect(), blob_flips: false });
+            units.push(Unit { hist_index: 0, history: h.clone(), profile: p, part: Part::Envelope(ei), bits: (0..8).collect(), blob_flips: false, disk_flips: false });
         }
     }
     let results: Vec<UnitResult> = units.par_iter().enumerate().map(|(i, u)| run_child(u, i)).collect();
